@@ -807,6 +807,9 @@ class ClientSession:
                         )
                         if r_url is None:
                             # see github.com/aio-libs/aiohttp/issues/2022
+                            # This response is returned to the caller: it is not
+                            # one of the responses preceding itself.
+                            history.pop()
                             break
                         else:
                             # reading from correct redirection
